@@ -154,11 +154,40 @@ def build_items(ctx, rnd):
         items.append(('fn', t, F.EXTMATCH, None))
         items.append(('gl', t, G.EXTGLOB | G.GLOBSTAR | G.DOTGLOB, None))
     # RAWCHARS escapes decode identically
-    for t in ['\\x41*', '\\101?', '[\\x61-\\x63]', 'a\\x2fb', '\\n', '\\t*', '\\\\x41', '\\x2a', '\\xe9', '[\\xe0-\\xef]']:
+    raw = ['\\x41*', '\\101?', '[\\x61-\\x63]', 'a\\x2fb', '\\n', '\\t*', '\\\\x41', '\\x2a', '\\xe9', '[\\xe0-\\xef]']
+    # every escape form in every spelling (hex digits in lower, upper and mixed case; 1-3 digit octal; the single-letter escapes; the
+    # escaped backslash that must stay untouched) - str and bytes decode through separate tables and regexes
+    for cp in (0x4A, 0x6B, 0x2F, 0x5C, 0x2A, 0xAF, 0x0A, 0x5B, 0xFF):
+        lo, up = '%02x' % cp, '%02X' % cp
+        mixed = lo[0].upper() + lo[1] if lo[0].isalpha() else lo[0] + lo[1].upper()
+        for h in dict.fromkeys((lo, up, mixed)):
+            raw.append('\\x' + h + ('*' if cp % 2 else ''))
+        raw.append('\\%o' % cp)
+    raw += ['\\' + c for c in 'abfnrtv'] + ['\\\\', '\\\\*', '\\\\\\x41', 'a\\\\b', '[\\x4A-\\x4F]', '\\0', '\\7a', '\\x4', '\\x', '\\xg1']
+    for t in dict.fromkeys(raw):
         items.append(('fn', t, F.RAWCHARS, None))
         items.append(('fn', t, F.RAWCHARS | F.EXTMATCH | F.IGNORECASE, None))
         items.append(('gl', t, G.RAWCHARS | G.GLOBSTAR, None))
     return items
+
+
+def realpath_mixed():
+    """REALPATH matching consults the file system: the TypeError must not depend on whether the name exists or is absolute."""
+    from wcmatch import glob as G
+    out = []
+    names = [('relative existing', '.'), ('relative missing', 'zz-wcverif-missing'), ('absolute existing', '/'), ('absolute missing', '/zz-wcverif-missing/x')]
+    for what, n in names:
+        nb = n.encode()
+        for desc, fn in [
+            (f'globmatch(str {what}, str pattern, REALPATH, bytes root)', lambda n=n: G.globmatch(n, '*', flags=G.REALPATH, root_dir=b'.')),
+            (f'globmatch(bytes {what}, bytes pattern, REALPATH, str root)', lambda nb=nb: G.globmatch(nb, b'*', flags=G.REALPATH, root_dir='.')),
+            (f'globmatch(str {what}, bytes pattern, REALPATH)', lambda n=n: G.globmatch(n, b'*', flags=G.REALPATH)),
+            (f'globmatch(bytes {what}, str pattern, REALPATH, bytes root)', lambda nb=nb: G.globmatch(nb, '*', flags=G.REALPATH, root_dir=b'.')),
+            (f'globfilter([str {what}], str pattern, REALPATH, bytes root)', lambda n=n: G.globfilter([n], '**', flags=G.REALPATH | G.GLOBSTAR, root_dir=b'.')),
+            (f'compile(str, REALPATH).match(str {what}, bytes root)', lambda n=n: G.compile('*', flags=G.REALPATH).match(n, root_dir=b'.')),
+        ]:
+            out.append((desc, fn))
+    return out
 
 
 def mixed_type_cases():
@@ -171,7 +200,7 @@ def mixed_type_cases():
         ('filter(str names, bytes)', lambda: F.filter(['a'], b'*')), ('globfilter(bytes names, str)', lambda: G.globfilter([b'a'], '*')),
         ('compile(bytes).match(str)', lambda: F.compile(b'*').match('a')), ('glob(str pattern, bytes root)', lambda: G.glob('*', root_dir=b'.')),
         ('glob(bytes pattern, str root)', lambda: G.glob(b'*', root_dir='.')), ('globmatch REALPATH str/bytes root', lambda: G.globmatch('a', '*', flags=G.REALPATH, root_dir=b'.')),
-    ]:
+    ] + realpath_mixed():
         try:
             r = fn()
             out.append((desc, 'returned ' + repr(r)))
